@@ -2671,6 +2671,17 @@ M('C07', 'attrs-truthiness-compared', DE, "            if getattr(key, attr) != 
 M('C07', 'call-check-only-with-identity', DE, "                self.check_attributes(key)\n", "                if kwargs.get('user') is not None:\n                    self.check_attributes(key)\n", 'C07.5')
 M('C07', 'call-check-only-when-subkey-selected', DE, "                self.check_attributes(key)\n", "                if _key is not key:\n                    self.check_attributes(key)\n", 'C07.5')
 M('C07', 'call-unguarded-fast-path', DE, "    def __call__(self, action):\n", "    def __call__(self, action):\n        if not self.conditions:\n            return action\n\n", 'C07.5')
+# --- wave 6: whatever is filed into the private key reaches the live public sibling (__or__ paths, add_uid)
+_W6_EMB = "            if other.type == SignatureType.Subkey_Binding:\n                for es in iter(pkb for pkb in other._signature.subpackets['EmbeddedSignature']):\n                    esig = PGPSignature() | es\n                    esig._parent = other\n                    self._signatures.insort(esig)\n"
+M('C07', 'or-early-return-skips-sibling', PGP, _W6_EMB, "            if other.type != SignatureType.Subkey_Binding:\n                return self\n\n            for es in other._signature.subpackets['EmbeddedSignature']:\n                esig = PGPSignature() | es\n                esig._parent = other\n                self._signatures.insort(esig)\n", 'C07.2')
+M('C07', 'add-uid-files-directly', PGP, "        self |= uid\n\n    def get_uid(self, search):", "        self._uids.insort(uid)\n\n    def get_uid(self, search):", 'C07.2')
+_W6_SIB = "        if isinstance(self._sibling, weakref.ref) and not from_sib:\n            sib = self._sibling()\n            if sib is None:\n                self._sibling = None\n\n            else:  # pragma: no cover\n                sib.__or__(copy.copy(other), True)\n"
+M('C07', 'or-sibling-handover-dropped', PGP, _W6_SIB, "        if isinstance(self._sibling, weakref.ref) and not from_sib:\n            if self._sibling() is None:\n                self._sibling = None\n", 'C07.2')
+M('C07', 'or-sibling-handover-uids-only', PGP, _W6_SIB, _W6_SIB.replace("            else:  # pragma: no cover\n", "            elif isinstance(other, PGPUID):\n"), 'C07.2')
+M('C07', 'or-sibling-handover-polarity', PGP, _W6_SIB, _W6_SIB.replace("and not from_sib:", "and from_sib:"), 'C07.2')
+M('C07', 'or-uid-arm-returns-early', PGP, "            other._parent = weakref.ref(self)\n            self._uids.insort(other)\n", "            other._parent = weakref.ref(self)\n            self._uids.insort(other)\n            return self\n", 'C07.2')
+T('C07', 'twin-or-sibling-guard-clauses', PGP, _W6_SIB, "        if from_sib or not isinstance(self._sibling, weakref.ref):\n            return self\n\n        sib = self._sibling()\n        if sib is None:\n            self._sibling = None\n            return self\n\n        sib.__or__(copy.copy(other), True)\n")
+T('C07', 'twin-add-uid-or-call', PGP, "        self |= uid\n\n    def get_uid(self, search):", "        self.__or__(uid)\n\n    def get_uid(self, search):")
 # --- wave 5: export order produced by a generator helper (canon fuses the loop over it)
 _W5_EXP = "        _bytes = bytearray()\n        # us\n        _bytes += self._key.__bytearray__()\n        # our signatures; ignore embedded signatures\n        for sig in iter(s for s in self._signatures if not s.embedded and s.exportable):\n            _bytes += sig.__bytearray__()\n        # one or more User IDs, followed by their signatures\n        for uid in self._uids:\n            _bytes += uid._uid.__bytearray__()\n            for s in [s for s in uid._signatures if s.exportable]:\n                _bytes += s.__bytearray__()\n        # subkeys\n        for sk in self._children.values():\n            _bytes += sk.__bytearray__()\n\n        return _bytes\n"
 _W5_GEN = "        _bytes = bytearray()\n        for component in self._export_sequence():\n            _bytes += component.__bytearray__()\n        return _bytes\n\n    def _export_sequence(self):\n        yield self._key\n        for sig in self._signatures:\n            if not sig.embedded and sig.exportable:\n                yield sig\n        for uid in self._uids:\n            yield uid._uid\n            yield from [s for s in uid._signatures if s.exportable]\n        for subkey in self._children.values():\n            yield subkey\n"
@@ -2818,6 +2829,13 @@ M('C16', 'lt-by-type', PGP, "    def __lt__(self, other):\n        return self.c
 T('C16', 'twin-insort-insert', TY, "        i = bisect.bisect_left(self, item)\n        self.rotate(- i)\n        self.appendleft(item)\n        self.rotate(i)", "        position = bisect.bisect_left(self, item)\n        self.insert(position, item)")
 M('C16', 'insort-appends', TY, "        i = bisect.bisect_left(self, item)\n        self.rotate(- i)\n        self.appendleft(item)\n        self.rotate(i)", "        self.append(item)", 'C16.5')
 M('C16', 'insort-rotate-back-missing', TY, "        self.appendleft(item)\n        self.rotate(i)", "        self.appendleft(item)", 'C16.5')
+# --- wave 6: self_signatures through a returned generator helper; short-circuit predicates
+_W6_SS = "        keyid, keytype = (self.fingerprint.keyid, SignatureType.DirectlyOnKey) if self.is_primary \\\n            else (self.parent.fingerprint.keyid, SignatureType.Subkey_Binding)\n\n        ##TODO: filter out revoked signatures as well\n        for sig in iter(sig for sig in self._signatures\n                        if all([sig.type == keytype, sig.signer == keyid, not sig.is_expired])):\n            yield sig\n"
+_W6_HLP = "        return self._own_signatures(SignatureType.DirectlyOnKey, SignatureType.Subkey_Binding)\n\n    def _own_signatures(self, primary_type, subkey_type):\n        if self.is_primary:\n            keyid, keytype = self.fingerprint.keyid, primary_type\n        else:\n            keyid, keytype = self.parent.fingerprint.keyid, subkey_type\n\n        for sig in self._signatures:\n            if all([sig.type == keytype, sig.signer == keyid, not sig.is_expired]):\n                yield sig\n"
+T('C16', 'twin-self-signatures-returned-helper', PGP, _W6_SS, _W6_HLP)
+M('C16', 'self-signatures-helper-any-issuer', PGP, _W6_SS, _W6_HLP.replace("sig.signer == keyid, ", ""), 'C16.5')
+M('C16', 'self-signatures-helper-types-swapped', PGP, _W6_SS, _W6_HLP.replace("self._own_signatures(SignatureType.DirectlyOnKey, SignatureType.Subkey_Binding)", "self._own_signatures(SignatureType.Subkey_Binding, SignatureType.DirectlyOnKey)"), 'C16.5')
+T('C16', 'twin-unlocked-short-circuit', PK, "        if self.protected:\n            return 0 not in list(self.keymaterial)\n        return True  # pragma: no cover", "        return not self.protected or all(c != 0 for c in self.keymaterial)")
 # --- wave 5: context-manager helper around the wrapper body (canon inlines it), yield from, filtered delegation candidates
 _W5_WRAP = "            if key._key is None:\n                raise PGPError(\"No key!\")\n\n            # if a key is in the process of being created, it needs to be allowed to certify its own user id\n            if len(key._uids) == 0 and key.is_primary and action is not key.certify.__wrapped__:\n                raise PGPError(\"Key is not complete - please add a User ID!\")\n\n            with self.usage(key, kwargs.get('user', None)) as _key:\n                self.check_attributes(key)\n\n                # do the thing\n                return action(_key, *args, **kwargs)\n"
 _W5_CALLW = "            with self._component_for(action, key, kwargs.get('user', None)) as _key:\n                return action(_key, *args, **kwargs)\n"
